@@ -71,6 +71,63 @@ add('C14', 'exploration',
     'sign, digit count and the guard-digit underscore are checked, and str() must not alter the value. Reports, dumps and JSON of U(3,<=3) x 14 configurations are re-derived from the record with str().',
     'values outside the grids are represented by a boundary list; for negative exact ties both common half-up conventions are accepted (the statement does not choose)',
     'DESIGN.md section 2 C14')
+add('C03', 'model_checking',
+    'reference-model conformance: six independent implementations of the quoted statutory texts are run beside every enumerated real count and compared stage event by stage event, to the last digit',
+    'mc/refmodels/{wigm_prf,meek_prf,scotland,mpls,cfer,qpq}.py re-implement the procedures quoted in the rule modules with plain scaled integers (exact rationals for QPQ) and import nothing from droop. '
+    'For every enumerated profile the model trace (quota, sets elected/excluded per stage, surplus transferred, every tally and the non-transferable total after every stage, winners) must equal the projection of the real record; '
+    'wigm fixed-4 must equal wigm-prf action for action. Places where the unchanged droop departs from a text are named switches, reported as known findings; anything else is a violation.',
+    'interpretive choices where a text is silent follow droop\'s documented reading (listed in each model docstring); bounded election sizes',
+    'DESIGN.md section 2 C03')
+add('C05', 'exploration',
+    'exhaustive enumeration of bounded profiles x every candidate subset S x every k against the Droop-proportionality oracle on the real count',
+    'For every enumerated profile, every non-empty proper subset S and every k the premise (solid support above k quotas plus the allowance) is evaluated and, when true, the real count must elect min(k,|S|) members of S; '
+    'all 11 rules and non-integer arithmetic menus; spaces include 4-candidate weighted and bullets+pair profiles that put a coalition partner next to a pending surplus.',
+    'bounded election sizes; quota = the rule\'s own first recorded quota',
+    'DESIGN.md section 2 C05')
+add('C07', 'model_checking',
+    'decision-model conformance: every exclusion, surplus choice and tie of every enumerated real count (under all tie orders) is checked against an independent decision model; metamorphic tie-order clause',
+    'At each exclusion the model recomputes the lowest / sure-loser conditions from the snapshot tallies in the rule\'s own arithmetic, at each surplus transfer the largest-surplus condition, at each tie the tied set, the Scottish prior-stage resolution and the declared order; '
+    'each profile is counted under all n! tie orders (3 candidates) and records of tie-free counts must coincide. Families are chosen so that ties, prior-stage resolutions (incl. ones two earlier stages decide differently) and batches occur (counted in the evidence).',
+    'bounded election sizes; Scottish >=3-way ties read as droop documents; tie messages parsed',
+    'DESIGN.md section 2 C07')
+add('C10', 'exploration',
+    'exhaustive enumeration of presentation variants (all line permutations, all multiplier splits, layout / comment / nickname menus) of every bounded profile; differential against the canonical presentation',
+    'Every variant text is parsed and counted by the real code; the whole record (JSON), dump and report must equal the canonical presentation\'s. The guarded minDiff statistic, which does depend on multiplier grouping (known finding F12), is compared separately so that any other difference is a violation.',
+    'bounded election sizes; simple candidate names (C15 covers the lexical menu)',
+    'DESIGN.md section 2 C10')
+add('C11', 'exploration',
+    'exhaustive enumeration: every renumbering of the candidates and every withdrawn subset of every bounded profile; differential by candidate name',
+    'Renumbering (names, tie order, ballots carried along) must preserve winners and final tallies by name; a withdrawn subset must give, action by action, the record of the profile with those candidates deleted. 11 rules + option variants, including Scottish multi-stage tie histories and equal-rank ballots.',
+    'bounded election sizes',
+    'DESIGN.md section 2 C11')
+add('C15', 'exploration',
+    'exhaustive enumeration of two products of small menus (semantic x presentation) printed to BLT text; the real parser must be the left inverse of the printer',
+    'About 360 000 well-formed texts (every withdrawn subset in both notations, undeclared sets, weak rankings, dropped / empty ballots, ballot-id styles, names with spaces / comment markers / UTF-8, tie / nick / droop options, six layouts, seven comment styles, BOM through a file, 255-257 candidates) '
+    'are parsed and every public attribute compared with the structure; structures that are not valid elections must be rejected with the profile error.',
+    'structures bounded to <= 3 candidates and <= 3 ballot lines (plus the boundary files)',
+    'DESIGN.md section 2 C15')
+add('C16', 'exploration',
+    'exhaustive enumeration of token strings up to a length, of every prefix+suffix and every 1-edit neighbour of a seed corpus, and of a hostile-string list at every position; outcome oracle on the real parser and on Election() for all rules',
+    'Every text must either be rejected with ElectionProfileError or yield a profile that satisfies the validity invariants and that every rule\'s Election constructor accepts; any other exception or a hang is a violation. ~3.3 M texts quick.',
+    'all texts are represented by the bounded families; 2 s hang threshold',
+    'DESIGN.md section 2 C16')
+add('C17', 'exploration',
+    'exhaustive enumeration of layer assignments (3^4 per option x spellings) on the real Options class against a precedence model; of option sources through Election and the CLI driver; of single and paired option perturbations on statutory rules',
+    'Effective value, record layers, unused and overridden lists must follow forced > caller > file > default for every assignment; the 8 statutory rules must produce the identical record, dump and report under every single / pair perturbation from caller, file or both on every enumerated profile.',
+    'perturbation values from a fixed menu of 17; bounded election sizes',
+    'DESIGN.md section 2 C17')
+add('C19', 'fault_enumeration',
+    'exhaustive fault injection: KeyboardInterrupt raised at every executed line of package code during count() (sys.settrace), then report/dump/json as the CLI does',
+    'For a fixed list of (profile, configuration) pairs every one of the K (900-6000) line events of the count is an interruption point; the interrupt must terminate the count, all three renderers must work, be marked once, and the recorded actions must be a field-for-field prefix of the uninterrupted record. '
+    'Election.prog is not stubbed (an interrupt swallowed there is detected).',
+    'granularity = executed source lines of package code; determinism of the uninterrupted run is pre-checked per pair',
+    'DESIGN.md section 2 C19')
+add('C20', 'model_checking',
+    'explicit-state BFS to closure over the package-global state (generic scan of module/class data + shared profile objects) driving the real code; every (state, letter) compared with the letter from the fresh state; histories replayed in fresh subprocesses',
+    'States are snapshotted and restored, so each (state, letter) pair is executed once and the search closes (about 1200 states, 100 000 transitions for 82 letters): the result holds for histories of any length over the alphabet. '
+    'The state vector is found by a generic scan, so a new global added by a change is part of it automatically; shared ElectionProfile objects are part of the state (a count that mutates its profile is caught).',
+    'finite alphabet of (profile, rule, options) letters listed in the evidence; state hidden in closures or C objects would escape the scan',
+    'DESIGN.md section 2 C20')
 
 NOT_YET = {}   # pid -> reason, filled below for properties without a registered check
 
